@@ -481,6 +481,8 @@ class Interp(EvalMixin, BuiltinMixin):
                         o.fields[e.attr] = self.havoc_value(cur, f"{ast.unparse(e)}", declared.get(ast.unparse(e)))
                         havoced.add((id(o), e.attr))
                         self.log_write(o, e.attr)
+            except UnresolvedName:
+                pass      # a local first created inside the loop body
             except Unsupported:
                 raise
             except (KeyError, PyRaise):
@@ -568,7 +570,16 @@ class Interp(EvalMixin, BuiltinMixin):
 
     def eval_measure(self, spec, sfr, auto_bound, idx, fr):
         if spec.decreases:
-            return [zint(self.ev(parse_expr(t), sfr)) for t in spec.decreases]
+            out = []
+            for t in spec.decreases:
+                if t.startswith("grows:"):
+                    v = self.ev(parse_expr(t[6:]), sfr)
+                    if not isinstance(v, ListV):
+                        raise Unsupported("grows: measure needs a list of booleans")
+                    out.append(to_symbolic(v.copy()))
+                else:
+                    out.append(zint(self.ev(parse_expr(t), sfr)))
+            return out
         if auto_bound is not None:
             return [auto_bound - zint(fr.locals[idx])]
         return None
@@ -578,6 +589,19 @@ class Interp(EvalMixin, BuiltinMixin):
         res = False
         eq_prefix = True
         for a, b in zip(m0, m1):
+            if isinstance(a, ListV):
+                # well-founded order on boolean arrays over a fixed finite index range: strict growth
+                j = z3.Int(fresh_name("g"))
+                n = zint(a.length)
+                same_len = n == zint(b.length)
+                mono = z3.ForAll([j], z3.Implies(z3.And(j >= 0, j < n, a.arr[j]), b.arr[j]))
+                j2 = z3.Int(fresh_name("g"))
+                new = z3.Exists([j2], z3.And(j2 >= 0, j2 < n, z3.Not(a.arr[j2]), b.arr[j2]))
+                j3 = z3.Int(fresh_name("g"))
+                eq = z3.And(same_len, z3.ForAll([j3], z3.Implies(z3.And(j3 >= 0, j3 < n), a.arr[j3] == b.arr[j3])))
+                res = zor(res, zand(eq_prefix, z3.And(same_len, mono, new)))
+                eq_prefix = zand(eq_prefix, eq)
+                continue
             res = zor(res, zand(eq_prefix, zand(a >= 0, b < a)))
             eq_prefix = zand(eq_prefix, a == b)
         return res
